@@ -93,6 +93,30 @@ def norm_obs_expr_lit(v: str, rootname: str) -> str:
     return _outside_literals(v, lambda t: _WS.sub(" ", pat.sub(" ${} ", t))).strip()
 
 
+def _count_path(v, ctx, rootname):
+    """jr:count value -> {has, p}: the node it names below the root, evaluated from the repeat node `ctx` (['?...'] when it names nothing)"""
+    if v is None or ctx is None:
+        return {"has": False, "p": []}
+    t = v.strip()
+    if t.startswith("/"):
+        below = _below_root(project.split_path(t), rootname)
+        return {"has": True, "p": below if below is not None else ["?" + t]}
+    steps = [x for x in t.split("/") if x != ""]
+    cur = list(ctx)
+    for x in steps:
+        if x == "..":
+            if not cur:
+                return {"has": True, "p": ["?" + t]}
+            cur = cur[:-1]
+        elif x == ".":
+            continue
+        elif re.fullmatch(r"[\w.\-]+", x):
+            cur.append(x)
+        else:
+            return {"has": True, "p": ["?" + t]}
+    return {"has": True, "p": cur}
+
+
 def observe(xform: str) -> dict:
     """Project the emitted XForm into the facts the C04/C02 envelopes talk about."""
     root = project.parse(xform)
@@ -130,6 +154,8 @@ def observe(xform: str) -> dict:
                 "abs": below is not None,
                 "par": (c["anc"][-1] + 1) if c["anc"] else 0,
                 "attrs": [[k, v] for k, v in c["attrs"].items()],
+                # jr:count of a repeat is a path too: evaluated from the repeat's node it must name an instance node
+                "count": _count_path(c["attrs"].get("jr:count"), below, rootname),
             }
         )
     binds = []
